@@ -55,15 +55,19 @@ class ByNameEnumMappingGenerator(BaseEnumMappingGenerator):
     ):
         self._name_style = name_style
         self._map = map if map is not None else {}
+        # members of mixed-in enums are equal to plain values, so member keys and name keys must be kept apart
+        self._member_map = [(key, mapped) for key, mapped in self._map.items() if isinstance(key, Enum)]
+        self._name_map = {key: mapped for key, mapped in self._map.items() if not isinstance(key, Enum)}
 
     def _generate_mapping(self, cases: Iterable[EnumT]) -> Mapping[EnumT, str]:
         result = {}
 
         for case in cases:
-            if case in self._map:
-                mapped = self._map[case]
-            elif case.name in self._map:
-                mapped = self._map[case.name]
+            by_member = [mapped for key, mapped in self._member_map if key is case]
+            if by_member:
+                mapped = by_member[0]
+            elif case.name in self._name_map:
+                mapped = self._name_map[case.name]
             elif self._name_style:
                 mapped = convert_snake_style(case.name, self._name_style)
             else:
